@@ -432,7 +432,7 @@ async def scenario_stream_overlap(block_at):
 
 # -- play_url ---------------------------------------------------------------------------------------
 
-async def scenario_play_url(n, mode, local_file):
+async def scenario_play_url(n, mode, local_file, other_stream_active=False):
     from pyatv.protocols import airplay as ap
     from pyatv.protocols.airplay import AirPlayStream
     from pyatv.core import MutableService
@@ -485,6 +485,23 @@ async def scenario_play_url(n, mode, local_file):
                 state["takeover"] -= 1
             return rel
 
+    other_release = None
+    facade = None
+    if other_stream_active:
+        # the REAL facade bookkeeping: another protocol's stream holds RemoteControl (what
+        # RaopStream.stream_file takes over), so play_url must be refused and leave that takeover alone
+        from ipaddress import IPv4Address
+        from pyatv import interface
+        from pyatv.core import CoreStateDispatcher
+        from pyatv.core.facade import FacadeAppleTV
+        from pyatv.settings import Settings
+        facade = FacadeAppleTV(conf.AppleTV(IPv4Address("127.0.0.1"), "verif"), None, CoreStateDispatcher(), Settings())
+        other_release = facade.takeover(Protocol.RAOP, interface.Audio, interface.Metadata, interface.PushUpdater, interface.RemoteControl)
+
+        def real_takeover(self, *ifaces):
+            plan.tick_sync("core.takeover")
+            return facade.takeover(Protocol.AirPlay, *ifaces)
+        Core.takeover = real_takeover
     saved = (ap.StaticFileWebServer, ap.http_connect, ap.AirPlayPlayer, ap.net.get_local_address_reaching, ap.os.path.exists)
     ap.StaticFileWebServer, ap.http_connect, ap.AirPlayPlayer = Server, http_connect, Player
     ap.net.get_local_address_reaching = lambda addr: "127.0.0.1"
@@ -502,6 +519,16 @@ async def scenario_play_url(n, mode, local_file):
             leaks.append("http connection left open")
         if stream._play_task is not None:
             leaks.append("play task reference left")
+        if facade is not None:
+            from pyatv import interface
+            holders = {i.__name__: (facade._interfaces[i]._takeover_protocol or [None])[0] for i in (interface.Audio, interface.Metadata, interface.PushUpdater, interface.RemoteControl)}
+            if res != "raised:InvalidStateError":
+                leaks.append("play_url while another stream is active was not refused: " + res)
+            if any(h != Protocol.RAOP for h in holders.values()):
+                leaks.append("refused play_url disturbed the other stream's takeover: %s" % {k: getattr(v, "name", None) for k, v in holders.items()})
+            other_release()
+            if any(facade._interfaces[i]._takeover_protocol for i in (interface.Audio, interface.Metadata, interface.PushUpdater, interface.RemoteControl)):
+                leaks.append("interfaces still taken over after the other stream released them")
         return {"result": res, "hit": plan.hit, "calls": plan.count, "leaks": leaks}
     finally:
         ap.StaticFileWebServer, ap.http_connect, ap.AirPlayPlayer, ap.net.get_local_address_reaching, ap.os.path.exists = saved
@@ -923,6 +950,13 @@ def run(ctx):
                 if r["leaks"]:
                     ctx.violation(leak_key("play_url", r["leaks"], r["hit"]), "play_url: " + "; ".join(r["leaks"]),
                                   {"op": "play_url", "local": local, "fault": mode, "nth_call": n, "at": r["hit"], "observed": r})
+    for local in (False, True):
+        r = vloop.run(scenario_play_url, 0, "exn", local, True)
+        ctx.case(("play_url-refused", local), nontrivial=True, sample={"op": "play_url while another stream holds RemoteControl", "local_file": local, "result": r["result"], "leaks": r["leaks"]})
+        ctx.count("play_url:refused")
+        if r["leaks"]:
+            ctx.violation("C18:play_url:refused-while-other-stream-active", "play_url while another stream is active: " + "; ".join(r["leaks"]),
+                          {"op": "play_url_refused", "local": local, "observed": r})
     base = vloop.run(scenario_send_audio, 0, "exn")
     if base["leaks"] or base["result"] != "ok":
         ctx.violation("C18:send_audio:fault-free-run", "fault-free send_audio leaks or fails", {"op": "send_audio", "observed": base})
@@ -971,6 +1005,8 @@ def replay(ctx, path):
         out = vloop.run(scenario_stream_file, r["nth_call"], r["fault"], r["variant"])
     elif op == "play_url":
         out = vloop.run(scenario_play_url, r["nth_call"], r["fault"], r["local"])
+    elif op == "play_url_refused":
+        out = vloop.run(scenario_play_url, 0, "exn", r["local"], True)
     elif op == "stream_overlap":
         out = vloop.run(scenario_stream_overlap, r["nth_call"])
     elif op == "send_audio":
